@@ -2,7 +2,7 @@
 # prints DESIGN 9.6 rows for the given variants from seeded/*/meta.json and the why dicts
 import json,sys,glob,os
 why={}
-for f in ('/verif/tools/why6.py','/verif/tools/why7.py','/verif/tools/why8.py','/verif/tools/why9.py'):
+for f in ('/verif/tools/why6.py','/verif/tools/why7.py','/verif/tools/why8.py','/verif/tools/why9.py','/verif/tools/why10.py'):
     g={}; exec(open(f).read(),g); why.update(g['why'])
 vs=sys.argv[1:]
 for d in sorted(glob.glob('/verif/seeded/C??-?')):
